@@ -101,9 +101,10 @@ def run(rep, prop=PROP):
                     suspects.append((seed, i_probes(seed), kv.get('id'), set(tags), line))
     # a real-time observation that fails is re-run (same seed = same plan, new timing) before it is reported:
     # the deterministic windows are the sweeps' job, this stage validates the environment assumptions
-    for seed, probes, sid, tags, line in suspects:
-        confirmed = 0
-        for attempt in range(3):
+    systematic = len(suspects) >= 5        # that many failing scenarios are not a timing accident
+    for n, (seed, probes, sid, tags, line) in enumerate(suspects):
+        confirmed = 1 if systematic or n >= 2 and problems else 0
+        for attempt in range(0 if confirmed else 3):
             for _, l2, v2 in srvrun.run_real(binary, os.path.join(wd, 'rerun'), seed, b['per'], probes):
                 if l2.startswith('obs') and srvrun.kvs(l2).get('id') == sid and v2 != 'OK' and tags & set(v2.split(' ', 1)[1].split(',')):
                     confirmed += 1
